@@ -47,6 +47,10 @@ def outcome(fn, text=None):
         v = fn()
         return {'k': 'ok', 'v': norm(v)}
     except FailedParse as e:
+        if 'recursion limit exceeded' in str(getattr(e, 'msg', '')):
+            # the engine reports a parse that ran out of stack as a parse failure (C08); for every other property it stays what it is:
+            # unbounded (or too deep) recursion, never an ordinary rejection
+            return {'k': 'exc', 'cls': 'RecursionError'}
         return {'k': 'fail', 'cls': type(e).__name__, 'pos': getattr(e, 'pos', None)}
     except ParseException as e:
         return {'k': 'err', 'cls': type(e).__name__, 'msg': str(e)[:200]}
